@@ -182,7 +182,7 @@ Proof.
         -- apply (Hs pre' k2 v2 post' Eq kv). apply in_or_app. now left.
         -- apply in_app_or in Hkv. destruct Hkv as [Hkv|[<-|[]]].
            ++ apply (Hs pre' k2 v2 post' Eq kv). apply in_or_app. now right.
-           ++ simpl. rewrite ekey_eqb_sym_eq. apply Fn. rewrite Eq. apply in_or_app. right. now left.
+           ++ simpl. rewrite ekey_eqb_sym_eq. apply (Fn (k2, v2)). rewrite Eq. apply in_or_app. right. now left.
 Qed.
 
 Lemma inv_nil : inv [] [].
